@@ -269,7 +269,26 @@ func init() {
 					paths, g = [][][2]int{r, h}, orb.Polygon{ringOf(r, 1), ringOf(h, 1)}
 				case 2:
 					l1, l2 := ring(8, 5), ring(8, 4)
-					paths, g = [][][2]int{l1, l2}, orb.MultiLineString{orb.LineString(ringOf(l1, 1)), orb.LineString(ringOf(l2, 1))}
+					paths = [][][2]int{l1, l2}
+					// members without a segment (no vertex, one vertex) anywhere among the others: nothing to measure to, and
+					// no reason to stop measuring
+					for k := c.rng.Intn(3); k > 0; k-- {
+						j := c.rng.Intn(len(paths) + 1)
+						short := [][2]int{}
+						if c.rng.Intn(2) == 0 {
+							short = [][2]int{{iv(8), iv(8)}}
+						}
+						paths = append(paths[:j:j], append([][][2]int{short}, paths[j:]...)...)
+					}
+					mls := orb.MultiLineString{}
+					for _, l := range paths {
+						mls = append(mls, orb.LineString(ringOf(l, 1)))
+					}
+					g = mls
+					if c.rng.Intn(4) == 0 {
+						g = orb.Collection{orb.Point{float64(iv(8) + 40), 40}, mls}
+						pts = [][2]int{{int(g.(orb.Collection)[0].(orb.Point)[0]), 40}}
+					}
 				case 3:
 					pts = ring(8, 5)
 					g = orb.MultiPoint(ringOf(pts, 1))
@@ -293,7 +312,7 @@ func init() {
 					}
 					paths, g = [][][2]int{r}, b
 				}
-				if c.rng.Intn(3) == 0 && len(paths) > 0 { // a query point on the boundary
+				if c.rng.Intn(3) == 0 && len(paths) > 0 && len(paths[0]) >= 2 { // a query point on the boundary
 					s := paths[0]
 					j := c.rng.Intn(len(s) - 1)
 					if (s[j][0]+s[j+1][0])%2 == 0 && (s[j][1]+s[j+1][1])%2 == 0 {
@@ -340,6 +359,43 @@ func init() {
 						mls = append(mls, orb.LineString(ringOf(p, 1)))
 					}
 					g = mls
+				}
+				// the same segments held by the other kinds - rings (stored segments only), a polygon, polygons, a box, and a
+				// collection mixing dimensions, one level down too: length is the sum of all segment lengths whatever holds them
+				switch c.rng.Intn(8) {
+				case 0:
+					g = ringOf(paths[0], 1)
+					paths = paths[:1]
+				case 1:
+					poly := orb.Polygon{}
+					for _, p := range paths {
+						poly = append(poly, ringOf(p, 1))
+					}
+					g = poly
+				case 2:
+					mp := orb.MultiPolygon{}
+					for _, p := range paths {
+						mp = append(mp, orb.Polygon{ringOf(p, 1)})
+					}
+					g = mp
+				case 3:
+					col := orb.Collection{orb.Polygon{ringOf(paths[0], 1)}, orb.Point{1, 2}}
+					for _, p := range paths[1:] {
+						if c.rng.Intn(2) == 0 {
+							col = append(col, orb.LineString(ringOf(p, 1)))
+						} else {
+							col = append(col, orb.Collection{orb.MultiPoint{{3, 4}}, orb.MultiLineString{orb.LineString(ringOf(p, 1))}})
+						}
+					}
+					g = col
+				case 4:
+					x0, y0, bw, bh := iv(6), iv(6), c.rng.Intn(8), c.rng.Intn(8)
+					b := orb.Bound{Min: orb.Point{float64(x0), float64(y0)}, Max: orb.Point{float64(x0 + bw), float64(y0 + bh)}}
+					paths = [][][2]int{{{x0, y0}, {x0 + bw, y0}, {x0 + bw, y0 + bh}, {x0, y0 + bh}, {x0, y0}}}
+					g = b
+					if c.rng.Intn(2) == 0 {
+						g = orb.Collection{b, orb.Point{0, 0}}
+					}
 				}
 				e := map[string]interface{}{"k": "len", "paths": paths, "nt": 1}
 				setCurrent("planar.Length", e)
